@@ -288,6 +288,16 @@ func checkBinOpEmission(c *Ctx, f *FC) {
 // checkLexemes: C08.b on the hand-written scanner scanTokenAt (typed syntax).
 func checkLexemes(c *Ctx, f *FC) {
 	r := c.R
+	// the tokens the parser sees are scanTokenAt's: nextToken adds no case of its own (a context-dependent
+	// re-reading of an operator character — "-" before a digit as a sign — changes how chains group)
+	if nf, fn := f.NF("nextToken"); fn != nil {
+		nf2 := strings.ReplaceAll(nf, "(Token).end", "Token.end")
+		r.Check(canonDiag(nf2) == canonDiag(nextTokenNF), "C08.b", "nextToken", "closed-form", c.Pos(f.M.Fset, fn.Decl.Pos()),
+			"the next token is what scanTokenAt scans at the end of the previous one (SPACE skipped, EOF at the end): an operator spelling is the same token in every context",
+			"nextToken's closed form changed: the token an operator spelling scans to may depend on its context; "+diffHint(nf2, nextTokenNF))
+	} else {
+		r.Undecided("C08.b", "nextToken", "definition", "fc/wrapper.go", "anchor function not found")
+	}
 	decls := core.FuncDecls(f.M.Main())
 	fd, ok := decls["scanTokenAt"]
 	if !ok {
